@@ -36,6 +36,7 @@ type c49Match struct {
 type c49Cfg struct {
 	Chains []c49Match `json:"chains"`
 	Def    bool       `json:"def"`
+	Wild   bool       `json:"wild"`
 }
 
 type c49Lookup struct {
@@ -93,11 +94,19 @@ func c49Filters(route string) []*v3listenerpb.Filter {
 	return []*v3listenerpb.Filter{{Name: "hcm", ConfigType: &v3listenerpb.Filter_TypedConfig{TypedConfig: hcm}}}
 }
 
+// c49Addr is the address the listener is bound to: the wildcard address, or the abstract address 4.
+func c49Addr(cfg c49Cfg) string {
+	if cfg.Wild {
+		return "0.0.0.0"
+	}
+	return "10.0.0.4"
+}
+
 func c49Listener(cfg c49Cfg) *v3listenerpb.Listener {
 	lis := &v3listenerpb.Listener{
-		Name: "grpc/server?xds.resource.listening_address=0.0.0.0:80",
+		Name: "grpc/server?xds.resource.listening_address=" + c49Addr(cfg) + ":80",
 		Address: &v3corepb.Address{Address: &v3corepb.Address_SocketAddress{SocketAddress: &v3corepb.SocketAddress{
-			Address: "0.0.0.0", PortSpecifier: &v3corepb.SocketAddress_PortValue{PortValue: 80}}}},
+			Address: c49Addr(cfg), PortSpecifier: &v3corepb.SocketAddress_PortValue{PortValue: 80}}}},
 	}
 	for i, m := range cfg.Chains {
 		fm := &v3listenerpb.FilterChainMatch{}
@@ -186,13 +195,15 @@ func TestVerifC49(t *testing.T) {
 				}
 				nAcc++
 				fcm := newFilterChainManager(&upd.TCPListener.FilterChains, &upd.TCPListener.DefaultFilterChain)
+				// as newListenerWrapper does with the address of the net.Listener (here: the address of the resource)
+				unspecified := (&net.TCPAddr{IP: net.ParseIP(upd.TCPListener.Address)}).IP.IsUnspecified()
 				out := make([]int, 0, len(in.Li))
 				for _, i := range in.Li {
 					lk := lks[i]
 					// as listenerWrapper.Accept does with the net.Conn's addresses
 					dst, _ := netip.AddrFromSlice(c49IP(lk.F, lk.Dst))
 					src, _ := netip.AddrFromSlice(c49IP(lk.F, lk.Src))
-					fc, err := fcm.lookup(lookupParams{isUnspecifiedListener: true, dstAddr: dst.Unmap(), srcAddr: src.Unmap(), srcPort: lk.Port})
+					fc, err := fcm.lookup(lookupParams{isUnspecifiedListener: unspecified, dstAddr: dst.Unmap(), srcAddr: src.Unmap(), srcPort: lk.Port})
 					nLook++
 					switch {
 					case err != nil && strings.Contains(err.Error(), "multiple matching"):
